@@ -235,10 +235,22 @@ let () =
            let cell cells i = (try q_of_string (List.nth cells i) with _ -> K.qzero) in
            let value com i = List.fold_left (fun acc (c, cells) -> if c = com then K.qadd acc (cell cells i) else acc) K.qzero alrows in
            let total_at i = (match total with Some cells -> cell cells i | None -> K.qzero) in
+           (* with --universe the weights table has class rows above the commodities: only commodity rows are compared *)
+           let has_uni = g "uni" <> "-" in
+           let coms = List.map string_of_str (journal_commodities ds) in
+           (* "for each commodity its share": a commodity of the valued balance that has no row of its own must have
+              the share 0 on every date *)
+           let all_shown = lazy (
+             List.for_all (fun com ->
+               List.exists (fun row -> match row with l :: _ -> l = com | [] -> false) wbody
+               || List.for_all (fun d -> match col d with
+                    | Some i -> K.share_ok_b tol_weight K.qzero (total_at i) (value com i)
+                    | None -> true) wdates)
+               (List.sort_uniq compare (List.map fst alrows))) in
            let shares_ok = lazy (
              List.for_all (fun row ->
                match row with
-               | label :: cells when label <> "Other" ->
+               | label :: cells when label <> "Other" && (not has_uni || List.mem label coms) ->
                  List.for_all2 (fun d wc ->
                    match col d, scell_of wc with
                    | Some i, Some (Some wq) -> K.share_ok_b tol_weight wq (total_at i) (value label i)
@@ -271,7 +283,8 @@ let () =
                   | _ -> []) in
                here @ laws (Some e) rest in
            first_fail ([ (dates_ok, "a weights column has no balance column");
-                         (shares_ok, "weight x total differs from the valued balance") ] @ laws None part.K.periods)
+                         (shares_ok, "weight x total differs from the valued balance");
+                         (all_shown, "a commodity of the valued balance has no weights row although its share is not zero") ] @ laws None part.K.periods)
          | _ -> "ok")
       | _, None -> "ok"
       | _ -> if String.length model >= 2 && String.sub model 0 2 = "OK" then "FAIL:a command failed" else "ok" in
